@@ -22,5 +22,25 @@ for path in sys.argv[1:]:
         m['checks'] = [c for c in m['checks'] if c['property_id'] != e['property_id']] + [e]
         m['not_applicable'] = [n for n in m.get('not_applicable', []) if n['property_id'] != e['property_id']]
         print('merged', e['property_id'])
+# extension stages that are called by several checks: one sentence per property, appended once
+STAGES = {
+    "tlsstream": ("The check also runs the TlsStream.tla stage (explicit TLA+ spec of the lazily handshaking TLS streams, model-checked, "
+                  "eight broken variants refuted, generated op schedules replayed on the real streams against a scripted rustls peer; "
+                  "TLC evaluates this property's clauses on every recorded step)."),
+    "duplex": ("The check also runs the Duplex.tla stage (explicit TLA+ spec of the in-process duplex transport: concurrent connects, "
+               "cancellation, accept, byte pipes; model-checked, five broken variants refuted, behaviours replayed step by step on the real "
+               "types, random walks validated against the spec by TLC, this property's clauses decided by a TLC monitor)."),
+    "tcpcall": ("The check also runs the TcpCall.tla stage (explicit TLA+ spec of one whole TcpTransport call: URI, resolver, sort, eyeballs "
+                "with per-attempt connect_timeout, error mapping; model-checked, four broken variants refuted, every realizable vector run on "
+                "the real transport on loopback; TLC evaluates this property's lifted clauses on every record)."),
+    "sniffbytes": ("The check also runs the replay domain of Sniff.tla on the real auto-detecting connection and reports the falsified `bytes` "
+                   "clause (what the handler reads behind the sniffer + rewind assembly is exactly what the client wrote)."),
+}
+USES = {"C07": ["tlsstream"], "C09": ["tlsstream", "duplex"], "C12": ["tlsstream"], "C20": ["tlsstream"],
+        "C18": ["sniffbytes", "duplex", "tlsstream"], "C10": ["tcpcall"], "C11": ["tcpcall"], "C17": ["tcpcall"]}
+for c in m['checks']:
+    for st in USES.get(c['property_id'], []):
+        if STAGES[st] not in c['level_claimed']['text']:
+            c['level_claimed']['text'] = c['level_claimed']['text'].rstrip() + " " + STAGES[st]
 m['checks'].sort(key=lambda c: c['property_id'])
 json.dump(m, open('/verif/MANIFEST.json', 'w'), indent=1)
